@@ -58,6 +58,13 @@ impl SubCheck for Writer {
         let sec = t.secs % 60 + if t.leap() { 1 } else { 0 };
         let exp = format!("{}, {} {} {:04} {:02}:{:02}:{:02} {}{:02}{:02}", DAY[cal::weekday(day) as usize], d, MON[(m - 1) as usize], y, t.secs / 3600, t.secs / 60 % 60, sec, if off < 0 { '-' } else { '+' }, off.abs() / 3600, off.abs() / 60 % 60);
         ensure_eq!(s, exp, "to_rfc2822");
+        {
+            // the same rendering through the formatting item
+            use std::fmt::Write;
+            let mut a = String::new();
+            let r = call("format_with_items(Fixed::RFC2822)", || write!(a, "{}", dt.format_with_items([Item::Fixed(Fixed::RFC2822)].iter())))?;
+            ensure!(r.is_ok() && a == s, "format_with_items([Fixed::RFC2822]) = {a:?} ({r:?}), to_rfc2822 = {s:?}");
+        }
         let back = call("parse_from_rfc2822", || DateTime::parse_from_rfc2822(&s))?.map_err(|e| format!("parse_from_rfc2822({s:?}) = {e:?}"))?;
         let wall = Ndt { day, secs: t.secs, frac: t.frac };
         ensure_eq!(value_of(&back), (key(shift(wall, -(off as i64))), off), "round trip of {s:?}");
@@ -112,7 +119,8 @@ struct Shape {
 fn grammar_case() -> BoxedStrategy<GCase> {
     let shape = (
         (any::<bool>(), any::<u8>(), any::<bool>(), any::<u8>(), 0u8..4, prop::bool::weighted(0.8), 0u8..3, any::<u8>()),
-        [ws_run(), ws_run(), ws_run(), ws_run(), ws_run()],
+        // after the comma of the weekday the white space is optional (RFC 2822: day = [FWS] 1*2DIGIT)
+        [prop_oneof![1 => Just(String::new()), 4 => ws_run()].boxed(), ws_run(), ws_run(), ws_run(), ws_run()],
         proptest::collection::vec((prop_oneof![2 => Just(String::new()), 1 => ws_run()], comment()), 0..3),
     )
         .prop_map(|((weekday, wmask, day2, mmask, ystyle, seconds, zone, zsel), ws, comments)| Shape { weekday, wmask, day2, mmask, ystyle, seconds, zone, zsel, ws, comments });
